@@ -9,8 +9,8 @@ for f in sys.argv[1:]:
         m = re.match(r'(\S+) (C\d+) rc=(\d+) (\d+)s ?(.*)', l.strip())
         if not m: continue
         patch, chk, rc, secs, rest = m.groups()
-        cls = re.search(r'class=(\S+?)[: ]', rest + ' ')
-        rows.setdefault(patch.replace('.diff', ''), {})[chk] = (int(rc), cls.group(1) if cls else '')
+        cls = re.search(r'class=(\S+)', rest)
+        rows.setdefault(patch.replace('.diff', ''), {})[chk] = (int(rc), cls.group(1).rstrip(':') if cls else '')
         if chk not in checks: checks.append(chk)
 checks.sort()
 print('| change | ' + ' | '.join(checks) + ' |')
